@@ -422,6 +422,18 @@ Example bip32_from_seed_short_ex : (length (repeat 0%N 15) < DerivConsts.slip10_
 Proof. vm_compute. repeat constructor. Qed.
 Print Assumptions bip32_from_seed_short_ex.
 
+(* <Bip32Slip10 class>.FromSeedAndPath(seed, path) / DerivePath / ChildKey, relative to the curve's key constructors
+   and CKD functions (which come from the EC key layer and HMAC; the SLIP-0010 retry loops are fuelled) *)
+Theorem bip32_from_seed_and_path_no_escape : forall (hmac512 : list N -> list N -> list N) (hash160 : list N -> list N)
+    (D : Bip32Slip10.deriv_ops) fuel seed is_abs p,
+  (forall b, NoEscapeDeriv.in_family_or_fuel (Bip32Slip10.d_priv_of_bytes D b) = true) ->
+  (forall P, NoEscapeDeriv.in_family_or_fuel (Bip32Slip10.d_pub_check D P) = true) ->
+  (forall fuel k P c i, NoEscapeDeriv.in_family_or_fuel (Bip32Slip10.d_ckd_priv D fuel k P c i) = true) ->
+  (forall fuel P c i, NoEscapeDeriv.in_family_or_fuel (Bip32Slip10.d_ckd_pub D fuel P c i) = true) ->
+  NoEscapeDeriv.in_family_or_fuel (Bip32Slip10.from_seed_and_path hmac512 hash160 D fuel seed is_abs p) = true.
+Proof. intros hmac512 hash160 D fuel seed is_abs p H1 H2 H3 H4. exact (NoEscapeDeriv.from_seed_and_path_fof hmac512 hash160 D H1 H2 H3 H4 fuel seed is_abs p). Qed.
+Print Assumptions bip32_from_seed_and_path_no_escape.
+
 (* ================================================================== 8. address decoders *)
 Import BU.Model.AddrB58 BU.Model.AddrText.
 
